@@ -208,6 +208,12 @@ func (w *srcWriter) stmts(ss []stmt) {
 func (p *program) source(sfx, mainName string, standalone bool) string {
 	if p.raw != "" {
 		src := strings.ReplaceAll(strings.ReplaceAll(p.raw, "@MAIN@", mainName), "@@", sfx)
+		// a type of package h: `h.Box` for Scriggo, `hBox` in the gc batch (where h is a variable)
+		if standalone {
+			src = strings.ReplaceAll(src, "@HBOX@", "h.Box")
+		} else {
+			src = strings.ReplaceAll(src, "@HBOX@", "hBox")
+		}
 		if standalone {
 			return "package main\n\nimport \"h\"\n\n" + src + "\nvar _ = h.Gosched\n"
 		}
